@@ -79,6 +79,6 @@ pub struct CaseResult {
 
 impl CaseResult {
     pub fn from_outcome(o: crate::run::Outcome) -> CaseResult {
-        CaseResult { violation: o.violation, harness_error: o.harness_error, chain: o.chain, executions: 1, fault_points: 0, failing: None, soft: None }
+        CaseResult { violation: o.violation, harness_error: o.harness_error, chain: o.chain, executions: 1, fault_points: 0, failing: None, soft: o.soft }
     }
 }
